@@ -224,6 +224,34 @@ def crcBitStepN : Nat → Nat → Nat
   | n+1, x => crcBitStepN n (crcBitStep x)
 def crcSpec (v : Bytes) : Nat := v.foldl (fun crc b => crcBitStepN 8 (crc ^^^ b.toNat)) 0
 
+/-! ### SSH-1 packets (protocol 1.5): length, 1–8 bytes of padding, type + data, CRC-32 over padding + type + data -/
+
+/-- `8 - packet_length % 8` -/
+def padLen1 (plen : Nat) : Nat := 8 - plen % 8
+
+/-- a protocol-1.5 packet, written down from the protocol description (spec side; the tool never sends one):
+    `pad` must be `padLen1 (data.length + 5)` bytes long -/
+def frame1 (t : UInt8) (data pad : Bytes) : Bytes :=
+  bytesOf (toBE (data.length + 5) 4) ++ pad ++ (t :: data) ++ bytesOf (toBE (crcCalc (pad ++ (t :: data))) 4)
+
+/-- `SSH_Socket.read_packet(1)` on a buffer that already holds `bs` (`none`: more data would be awaited) -/
+def readPacket1 (bs : Bytes) : Except Exn (Option (Nat × Bytes × Bytes)) :=
+  if bs.length < 4 then .ok none else
+  let plen := ofBE (natsOf (bs.take 4))
+  let r1 := bs.drop 4
+  let padL := padLen1 plen
+  if r1.length < padL then .ok none else
+  let pad := r1.take padL
+  let r2 := r1.drop padL
+  if (padL + plen) % 8 ≠ 0 ∨ plen < 5 then .error (.sysExit 1) else
+  if r2.length < plen then .ok none else
+  let payload := r2.take (plen - 4)
+  let r3 := r2.drop (plen - 4)
+  let crc := ofBE (natsOf (r3.take 4))
+  match payload with
+  | [] => .error .type
+  | t :: body => if crc ≠ crcCalc (pad ++ payload) then .error (.sysExit 1) else .ok (some (t.toNat, body, r3.drop 4))
+
 /-! ### KEXINIT (`ssh2_kex.py`) -/
 
 structure Kex where
